@@ -165,10 +165,19 @@ def _case(ctx, arbitrary=False):
 
 
 def run(ctx):
+    if ctx.shard == 0:  # the repository's own pinned examples as one more workload (outcomes ignored)
+        from ..repotests import run_repo_tests
+
+        run_repo_tests(ctx, ("specifier", "marker"))
     run_trees(ctx, _case(ctx), depth=(0, 3), scale=0.25, hostile_p=0.15)
     ctx.extra["arbitrary_stratum_from_case"] = ctx.cases
     run_trees(ctx, _case(ctx, arbitrary=True), depth=(1, 3), arbitrary=True, scale=0.1, hostile_p=0.1)
 
 
 def replay(ctx, case):
+    if isinstance(case, dict) and case.get("kind") == "repo-test":
+        from ..repotests import run_repo_tests
+
+        run_repo_tests(ctx, nodeid=case["nodeid"])
+        return
     _case(ctx, arbitrary="===" in W.tree_text(case["tree"]))(case["tree"], None)
